@@ -1,4 +1,5 @@
 import json
+import re
 
 from lingpy.algorithm import misc
 from lingpy.read.phylip import read_dst, read_scorer
@@ -269,8 +270,8 @@ def read_qlc(infile, comment='#'):
             # check for specific keywords
             if ' ' in tmp:
                 dtype = tmp.split(' ')[0]
-                keys = {k: v[1:-1]
-                        for k, v in [key.split('=') for key in tmp.split(' ')[1:]]}
+                keys = {k: v for k, _, v in re.findall(
+                    r'''(\S+?)=(["'])(.*?)\2''', tmp[len(dtype):])}
             else:
                 dtype = tmp.strip()
                 keys = {}
